@@ -272,17 +272,25 @@ func gen(c *core.Ctx) error {
 	if !c.Quick() {
 		fsz = append(fsz, 8, 4, 666, 131071, 131073, 196608, 1<<20, 1<<20+5)
 	}
+	// contents that look like the protocol's own messages: the end marker 666, an 8-byte size
+	marker := []byte{0, 0, 2, 0x9a}
+	special := []ss.Data{ss.Lit(marker), ss.PayTail(9, 65536, marker), ss.Lit(append(append([]byte{}, marker...), marker...)),
+		ss.Lit([]byte{0, 0, 0, 0, 0, 0, 0, 4}), ss.PayTail(2, 65536-4, append(append([]byte{}, marker...), marker...))}
 	for i, n := range fsz {
 		for si, su := range setups() {
 			if c.Quick() && n > 70000 && si == 2 {
 				continue
+			}
+			first := ss.Pay(i+11, n)
+			if si < 2 && i < len(special) {
+				first = special[i]
 			}
 			su.ReadMax = []int{0, 4096, 1000}[(i+si)%3]
 			su.Ctx = (i+si)%2 == 0
 			aSends := (i+si)%2 == 0
 			cs := &ss.Case{Setup: su, Steps: []ss.Step{
 				{Kind: "phase", ASends: aSends, SOps: ss.Msg{Kind: "direct", Chunks: []ss.Data{ss.Pay(3, 5)}}.SOps(), ROps: []ss.ROp{{Op: "complete"}}},
-				{Kind: "phase", ASends: aSends, SOps: []ss.SOp{{Op: "putfile", D: ss.Pay(i+11, n)}}, ROps: []ss.ROp{{Op: "getfile"}}},
+				{Kind: "phase", ASends: aSends, SOps: []ss.SOp{{Op: "putfile", D: first}}, ROps: []ss.ROp{{Op: "getfile"}}},
 				{Kind: "phase", ASends: !aSends, SOps: []ss.SOp{{Op: "putfile", D: ss.Pay(i+5, n/2)}}, ROps: []ss.ROp{{Op: "getfile"}}},
 				{Kind: "phase", ASends: aSends, SOps: ss.Msg{Kind: "direct", Chunks: []ss.Data{ss.Pay(4, 2)}}.SOps(), ROps: []ss.ROp{{Op: "complete"}}},
 			}}
@@ -293,7 +301,7 @@ func gen(c *core.Ctx) error {
 				c.OracleFail("roundtrip", "file transfer setup: "+obs.SetupErr.Error(), fd)
 				continue
 			}
-			c.AddCaseW(term, fd, 1+n/2000)
+			c.AddCaseW(term, fd, 1+(n+len(first.Bytes()))/2000)
 			if err := fileOracle(cs, obs); err != nil {
 				c.OracleFail("roundtrip", err.Error(), fd)
 			}
